@@ -462,7 +462,9 @@ def apply_violation(doc: Dict[str, Any], ref: Ref, cls: Tuple[str, str, str], r:
     elif kw == "additionalProperties":
         x[key] = r.choice([True, "x", 1, None])
     elif kw == "type":
-        if key == "params":
+        if r.random() < 0.35:
+            x[key] = None  # null is a wrong JSON type for every declared property
+        elif key == "params":
             x[key] = "not a type"
         elif name == "EnumerationEntry" and key == "value":
             x[key] = [x[key]]
